@@ -104,13 +104,38 @@ impl SvgElement {
 //@end
 }
 
+/// XML 1.0 section 2.5: the text of a comment contains no "--" and does not end with '-'
+pub open spec fn comment_ok(s: Seq<char>) -> bool {
+    (forall|i: int| 0 <= i < s.len() - 1 ==> !(#[trigger] s[i] == '-' && s[i + 1] == '-'))
+    && (s.len() > 0 ==> s.last() != '-')
+}
+/// the raw payload handed to the writer is the encoding of a valid comment text
+pub open spec fn comment_payload_ok(b: Bytes) -> bool { exists|s: Seq<char>| #[trigger] str_bytes(s) == b && comment_ok(s) }
+/// XML 1.0 section 2.7: a CDATA section's text does not contain "]]>"
+pub open spec fn cdata_ok(s: Seq<char>) -> bool { !contains_seq(s, "]]>") }
+
+//@item src/events.rs :: fn comment_text
+//@ ensures
+//@ - comment_ok(r@)     @@C02.comment.text_valid
+//@ - comment_ok(c@) ==> r@ == c@     @@C03.comment.valid_text_unchanged @@C05.comment.valid_text_unchanged
+//@ loop 1
+//@ iter it
+//@ invariant
+//@ - comment_ok(if prev_hyphen { out@.push(' ') } else { out@ })
+//@ - prev_hyphen == (out@.len() > 0 && out@.last() == '-')
+//@ - comment_ok(c@) ==> out@ == c@.take(it.index@)
+//@end
+
 /// what the writer receives for one OutputEvent
 impl Event {
 //@item src/events.rs :: impl<'a> From<OutputEvent> for Event<'a> :: fn from
 //@ replace[R-opaque-type] <<<-> Event<'a> {>>> => <<<-> Event {>>>
 //@ ensures
-//@ - svg_ev is Comment ==> r is Comment && r->Comment_0.raw() == str_bytes(svg_ev->Comment_0@)
-//@ - svg_ev is CData ==> r is CData && r->CData_0.raw() == str_bytes(svg_ev->CData_0@)
+//@ - svg_ev is Comment ==> r is Comment && comment_payload_ok(r->Comment_0.raw())     @@C02.comment.delimited
+//@ - svg_ev is Comment && comment_ok(svg_ev->Comment_0@) ==> r is Comment && r->Comment_0.raw() == str_bytes(svg_ev->Comment_0@)     @@C03.comment.written_verbatim @@C05.comment.written_verbatim
+//@ - svg_ev is CData ==> (r is CData && r->CData_0.raw() == str_bytes(svg_ev->CData_0@) && cdata_ok(svg_ev->CData_0@))
+//@       || (r is Text && r->Text_0.raw() == xml_escape(svg_ev->CData_0@))     @@C02.cdata.delimited
+//@ - svg_ev is CData && cdata_ok(svg_ev->CData_0@) ==> r is CData && r->CData_0.raw() == str_bytes(svg_ev->CData_0@)     @@C03.cdata.written_verbatim @@C05.cdata.written_verbatim
 //@ - svg_ev is Start ==> r is Start && (forall|i: int| 0 <= i < r->Start_0.attrs().len() ==> attr_safe((#[trigger] r->Start_0.attrs()[i]).1))     @@C02.attr.escaped.start
 //@ - svg_ev is Empty ==> r is Empty && (forall|i: int| 0 <= i < r->Empty_0.attrs().len() ==> attr_safe((#[trigger] r->Empty_0.attrs()[i]).1))     @@C02.attr.escaped.empty
 //@end
